@@ -210,9 +210,51 @@ def gen_case(rng, op, thorough=False):
                 dtype=rng.choice(["f64", "f64", "f32"]), style=rng.randrange(4), kinds=kinds, poly=poly)
     if op == "lap" and len(deriv) == 1 and rng.random() < 0.25:
         case["pregrad"] = True
+    r = rng.random()
+    if r < 0.08:
+        case["outmode"] = "noncontig"
+    elif r < 0.13:
+        case["outmode"] = "expandview"
+    if len(batch) == 1 and rng.random() < 0.15:
+        case["inmode"] = "points"
     if malformed:
         case["malformed"] = malformed
     return case
+
+
+def gen_degenerate(rng, op):
+    """degenerate but legal programs: the output IS an input leaf, a slice of an input without arithmetic,
+    a constant tensor without graph; inputs optionally created by Points.track_coord_gradients"""
+    for _ in range(200):
+        case = gen_case(rng, op)
+        if case.get("malformed"):
+            continue
+        vars_, deriv = case["vars"], case["deriv"]
+        need = len(case["out"][0]) if op == "mdiv" else len(case["out"])
+        kind = rng.choice(["leaf", "leaf", "slice", "const"])
+        if kind == "const":
+            comps = lambda: [rnd_const(rng, nonzero=False) for _ in range(need)]
+            case["outmode"] = "constview" if rng.random() < 0.6 else "std"
+        else:
+            if kind == "leaf":
+                cands = [(n, 0, d) for n, d in vars_ if d == need]
+            else:
+                cands = [(n, a, a + need) for n, d in vars_ for a in range(d - need + 1) if d > need]
+            if not cands:
+                continue
+            case["outmode"] = "slice"
+            comps = lambda: (lambda c: [["v", c[0], i] for i in range(c[1], c[2])])(rng.choice(cands))
+        case["out"] = [comps() for _ in case["out"]] if op == "mdiv" else comps()
+        case["kinds"] = [kind]
+        case["poly"] = True
+        case["degenerate"] = kind
+        case.pop("pregrad", None)
+        if len(case["batch"]) == 1 and rng.random() < 0.4:
+            case["inmode"] = "points"
+        else:
+            case.pop("inmode", None)
+        return case
+    return None
 
 
 def flat_out(case):
@@ -247,9 +289,19 @@ def build_inputs(torch, case, rows=None):
     batch = case["batch"] if rows is case["rows"] else [len(rows)]
     T, X, off = {}, {}, 0
     style = case["style"]
+    tracked = None
+    if case.get("inmode") == "points" and len(batch) == 1:
+        # the tensors the library itself hands to residual functions: leaf VIEWS (slices) of one joined tensor
+        tp = common.use_repo()
+        space = tp.spaces.Space({n: d for n, d in case["vars"]})
+        joined = torch.tensor([[float(Fraction(v)) for v in r] for r in rows], dtype=dt)
+        tracked, _ = tp.spaces.Points(joined, space).track_coord_gradients()
     for n, d in case["vars"]:
-        vals = [[float(Fraction(v)) for v in r[off:off + d]] for r in rows]
-        t = torch.tensor(vals, dtype=dt).reshape(*batch, d).clone().requires_grad_(True)
+        if tracked is not None:
+            t = tracked[n]
+        else:
+            vals = [[float(Fraction(v)) for v in r[off:off + d]] for r in rows]
+            t = torch.tensor(vals, dtype=dt).reshape(*batch, d).clone().requires_grad_(True)
         T[n] = t
         if style == 1:
             cols = [t.narrow(-1, i, 1) for i in range(d)]
@@ -263,6 +315,37 @@ def build_inputs(torch, case, rows=None):
             X[(n, i)] = cols[i]
         off += d
     return T, X, batch, dt
+
+
+def is_slice(exprs):
+    """(name, a, b) if the components are exactly coordinates a..b-1 of one variable, in order"""
+    if not exprs or any(e[0] != "v" for e in exprs):
+        return None
+    n, a = exprs[0][1], exprs[0][2]
+    if all(e[1] == n and e[2] == a + k for k, e in enumerate(exprs)):
+        return n, a, a + len(exprs)
+    return None
+
+
+def make_output(torch, exprs, T, X, case, batch, dt):
+    """the tensor handed to the operator; `outmode` selects degenerate but legal ways of producing it"""
+    mode = case.get("outmode", "std")
+    sl = is_slice(exprs)
+    dims = dict((n, d) for n, d in case["vars"])
+    if mode == "slice" and sl:
+        n, a, b = sl
+        if a == 0 and b == dims[n]:
+            return T[n]                         # the output IS the input leaf
+        return T[n][..., a:b]                   # a component / slice of an input, no arithmetic
+    if mode == "constview" and all(e[0] == "c" for e in exprs):
+        row = torch.tensor([float(Fraction(e[1])) for e in exprs], dtype=dt)
+        return row.expand(*batch, len(exprs))   # constant tensor without graph, stride 0
+    out = assemble(torch, [torch_eval(torch, e, X) for e in exprs], batch, dt, case["style"])
+    if mode == "noncontig":
+        return out.movedim(-1, 0).contiguous().movedim(0, -1)
+    if mode == "expandview":
+        return out.unsqueeze(0).expand(2, *out.shape)[1]
+    return out
 
 
 def assemble(torch, comps, batch, dt, style):
@@ -299,10 +382,12 @@ def run_impl(case, rows=None):
     op = case["op"]
     try:
         if op == "mdiv":
-            rows_t = [assemble(torch, [torch_eval(torch, e, X) for e in row], batch, dt, case["style"]) for row in case["out"]]
+            rows_t = [make_output(torch, row, T, X, case, batch, dt) for row in case["out"]]
             out = torch.stack(rows_t, dim=len(batch))
+            if case.get("outmode") == "noncontig":
+                out = out.transpose(-1, -2).contiguous().transpose(-1, -2)
         else:
-            out = assemble(torch, [torch_eval(torch, e, X) for e in case["out"]], batch, dt, case["style"])
+            out = make_output(torch, case["out"], T, X, case, batch, dt)
         dv = [T[case["vars"][k][0]] for k in case["deriv"]]
         f = getattr(ops, IMPL_NAME[op])
         if op in ("nd", "conv"):
@@ -555,7 +640,8 @@ def nontrivial(case):
     outs = flat_out(case)
     focus = {(case["vars"][k][0], i) for k in case["deriv"] for i in range(case["vars"][k][1])}
     dep = any(coords_in(e) & focus for e in outs)
-    return (not case.get("malformed")) and dep and max(depth(e) for e in outs) >= 2 and len(case["rows"]) >= 2
+    deep = max(depth(e) for e in outs) >= 2 or case.get("degenerate") in ("leaf", "slice")
+    return (not case.get("malformed")) and dep and deep and len(case["rows"]) >= 2
 
 
 def gen_cases(ctx):
@@ -565,6 +651,11 @@ def gen_cases(ctx):
     for op in OPS:
         for _ in range(per_op):
             cases.append(gen_case(rng, op, thorough=not ctx.quick))
+    for op in OPS:
+        for _ in range(ctx.scale(30, 300)):
+            c = gen_degenerate(rng, op)
+            if c is not None:
+                cases.append(c)
     return cases
 
 
@@ -597,6 +688,21 @@ CORPUS = [
          kinds=["general"] * 3, poly=True),
     dict(op="mdiv", vars=[["x", 2]], out=[[["^", V("x", 0), 3], ["^", V("x", 1), 3]], [["*", V("x", 0), V("x", 1)], ["^", V("x", 1), 5]]],
          deriv=[0], extra=[], batch=[2], rows=[["11/8", "13/8"], ["-7/8", "9/8"]], dtype="f64", style=0, kinds=["general"] * 4, poly=True),
+]
+
+
+CORPUS += [
+    # the output IS an input leaf: partial(x, x) = 1, partial(t, t) = 1 (a `grad_fn is None` early-out returned 0)
+    dict(op="partial", vars=[["x", 1], ["t", 1]], out=[V("x", 0)], deriv=[0], extra=[], batch=[2], rows=[["1", "1/2"], ["3", "1/4"]],
+         dtype="f64", style=0, kinds=["leaf"], poly=True, outmode="slice", degenerate="leaf"),
+    dict(op="partial", vars=[["x", 1], ["t", 1]], out=[V("t", 0)], deriv=[1], extra=[], batch=[2], rows=[["1", "1/2"], ["3", "1/4"]],
+         dtype="f32", style=0, kinds=["leaf"], poly=True, outmode="slice", degenerate="leaf", inmode="points"),
+    dict(op="grad", vars=[["x", 1], ["t", 1]], out=[V("x", 0)], deriv=[0, 1], extra=[], batch=[2], rows=[["1", "1/2"], ["3", "1/4"]],
+         dtype="f64", style=0, kinds=["leaf"], poly=True, outmode="slice", degenerate="leaf"),
+    dict(op="div", vars=[["x", 2]], out=[V("x", 0), V("x", 1)], deriv=[0], extra=[], batch=[2], rows=[["1", "1/2"], ["3", "1/4"]],
+         dtype="f64", style=0, kinds=["leaf"], poly=True, outmode="slice", degenerate="leaf", inmode="points"),
+    dict(op="lap", vars=[["x", 2]], out=[V("x", 1)], deriv=[0], extra=[], batch=[2], rows=[["1", "1/2"], ["3", "1/4"]],
+         dtype="f64", style=0, kinds=["slice"], poly=True, outmode="slice", degenerate="slice"),
 ]
 
 
@@ -646,8 +752,12 @@ def run(ctx, rep, cases=None, use_driver=True):
             rep.count("model-channel:%s-%s" % k)
         if case.get("pregrad"):
             rep.count("laplacian-with-precomputed-grad")
+        rep.count("output:" + case.get("outmode", "std"))
+        rep.count("inputs:" + case.get("inmode", "harness"))
+        if case.get("degenerate"):
+            rep.count("degenerate:" + case["degenerate"])
         rep.case(dict(op=op, vars=case["vars"], out=case["out"], deriv=case["deriv"], batch=case["batch"], rows=case["rows"],
-                      dtype=case["dtype"], extra=case["extra"]),
+                      dtype=case["dtype"], extra=case["extra"], outmode=case.get("outmode"), inmode=case.get("inmode")),
                  nontrivial(case),
                  sample=dict(case={k: case[k] for k in ("op", "vars", "out", "deriv", "extra", "batch", "dtype")},
                              rows=case["rows"][:2], implementation=(impl.get("values") or [impl.get("error")])[:2],
